@@ -12,7 +12,7 @@ import (
 
 func newExec(e *Engine, sol *Solver) *Exec {
 	x := &Exec{eng: e, prog: e.l.prog, sol: sol, unwind: e.spec.Unwind, sched: e.spec.Sched, maxPreempt: e.spec.Preempt,
-		memoOn: e.spec.Memo, trace: e.trace, funcsSeen: map[*ssa.Function]bool{}, extSeen: map[string]int{}}
+		memoOn: e.spec.Memo, trace: e.trace, funcsSeen: map[*ssa.Function]bool{}, blocksSeen: e.newBlockSet(), extSeen: map[string]int{}}
 	if x.unwind == 0 {
 		x.unwind = 12
 	}
